@@ -476,7 +476,12 @@ class CallMixin:
             if "*" in fields:
                 from .spec import PROTECTED_FIELDS
 
-                fields = [f for f in list(st.heap.keys()) + [k for k in st.heap0 if k not in st.heap] if f not in PROTECTED_FIELDS]
+                names = [f for f in list(st.heap.keys()) + [k for k in st.heap0 if k not in st.heap] if f not in PROTECTED_FIELDS]
+                before = {f: st.harr(f) for f in names}
+                self.havoc_modifies(st, ["*"], env, func)   # keeps protected fields and ghost containers
+                for f in names:
+                    st.heap[f] = z3.If(g, st.heap[f], before[f])
+                continue
             before = {f: st.harr(f) for f in fields}
             self.havoc_modifies(st, fields, env, func)
             for f in fields:
@@ -526,7 +531,15 @@ class CallMixin:
                 else:
                     gw(fld, "hv_" + fld, V)
             else:
+                before = st.harr(m)
                 st.havoc_field(m)
+                if m.startswith("$") and not m.startswith("$static"):
+                    # a whole-field clause on a container field speaks about program objects; ghost containers are only
+                    # changed through ghost effects / the callee's declared ghosts
+                    for g in st.ghost.values():
+                        if g.z is not None and hint_kind(g.th) in ("list", "dict", "set"):
+                            gr = V.r(g.z)
+                            st.heap[m] = z3.Store(st.heap[m], gr, z3.Select(before, gr))
 
     def apply_contract(self, st: State, c: Contract, recv: Optional[Val], args: List[Val], kwargs: Dict[str, Val], node,
                        text: str, fi: Optional[front.FuncInfo] = None) -> List[Out]:
